@@ -72,8 +72,8 @@ def _dom(tier):
     if tier == "thorough":
         return dict(pre2=L.PRE_TOKENS, terms2=L.TERM_TOKENS, pairs_of_mutators=True, nmax2=3,
                     pre3=L.PRE_TOKENS, terms3=L.TERM_TOKENS, nmax3=3, bufs3=None, hist=7)
-    return dict(pre2=L.PRE_TOKENS[:7], terms2=L.TERM_TOKENS[:4], pairs_of_mutators=False, nmax2=3,
-                pre3=("none", "usr", "upd", "mkf", "cnt"), terms3=L.TERM_TOKENS[:4], nmax3=2,
+    return dict(pre2=L.PRE_TOKENS[:7] + ("usrsl",), terms2=L.TERM_TOKENS[:4], pairs_of_mutators=False, nmax2=3,
+                pre3=("none", "usr", "upd", "mkf", "cnt", "usrsl"), terms3=L.TERM_TOKENS[:4], nmax3=2,
                 bufs3=(1, 2, None), hist=5)
 
 
